@@ -70,6 +70,10 @@ def sensitivity():
                                                             else c.split(':rc=')[0] + ': caught') for c in fv) + ' → after strengthening')
         if m.get('strengthened'):
             verdicts.append(m['strengthened'])
+        if m.get('superseded'):
+            verdicts.append('SUPERSEDED: ' + m['superseded'])
+        if m.get('stale_patch'):
+            verdicts.append('patch ' + m['stale_patch'] + ' (a regenerated copy, where one exists, is under tools/mutations/)')
         summ = str(m.get('summary', '')).replace('|', '\\|').replace('\n', ' ')[:300]
         needs = str(m.get('needs', '')).replace('|', '\\|').replace('\n', ' ')[:300]
         out.append(f"| {os.path.basename(d)} | {summ} | {needs} | {'; '.join(verdicts)} |")
@@ -85,6 +89,8 @@ def sensitivity():
             continue
         n += 1
         def cls(rc, which):
+            if which == 'final' and m.get('superseded'):
+                return 'harmless on the repaired tree'
             if rc == '0':
                 return 'missed'
             if rc != '1':
